@@ -162,6 +162,15 @@ def callTarget (T : Table) (rec : String → Node → σ → Res (Out σ)) (tgt 
   | .ok m => rec m c s
   | .error e => .err e
 
+/-- which `@_visit_method` body runs on the node `n1` that `enter` returned for `n` inside method `m`:
+    `m` itself, unless `n1` is of another class and the wrapper dispatches on it (`T.crossKind`) -/
+def bodyMethod (T : Table) (m : String) (n n1 : Node) : Except String String :=
+  if T.crossKind && !(n1.kind == n.kind) then
+    match T.visit.lookup n1.kind with
+    | none => .error "TypeError"
+    | some m' => .ok m'
+  else .ok m
+
 /-- `_visit_method(method)(inst, node)`: enter / skip / body / leave -/
 def visitM (T : Table) (v : Visitor σ) : Nat → String → Node → σ → Res (Out σ)
   | 0, _, _, _ => .fuel
@@ -171,7 +180,10 @@ def visitM (T : Table) (v : Visitor σ) : Nat → String → Node → σ → Res
     | (.skip n', s1) => .ok ⟨some n', n', s1, [⟨true, n⟩]⟩
     | (.delete, s1) => .ok ⟨none, n, s1, [⟨true, n⟩]⟩
     | (.keep n1, s1) =>
-      match T.methods.lookup m with
+      match bodyMethod T m n n1 with
+      | .error e => .err e
+      | .ok mb =>
+      match T.methods.lookup mb with
       | none => .err "NoMethod"
       | some steps =>
         match runSteps (callTarget T (visitM T v fuel)) steps n1 s1 with
@@ -179,13 +191,19 @@ def visitM (T : Table) (v : Visitor σ) : Nat → String → Node → σ → Res
         | .fuel => .fuel
         | .ok (n2, s2, tr) => .ok ⟨some n2, n2, v.leave n2 s2, ⟨true, n⟩ :: tr ++ [⟨false, n2⟩]⟩
     | (.replace n1, s1) =>
-      match T.methods.lookup m with
+      match bodyMethod T m n n1 with
+      | .error e => .err e
+      | .ok mb =>
+      match T.methods.lookup mb with
       | none => .err "NoMethod"
       | some steps =>
         match runSteps (callTarget T (visitM T v fuel)) steps n1 s1 with
         | .err e => .err e
         | .fuel => .fuel
         | .ok (n2, s2, tr) => .ok ⟨some n2, n, v.leave n2 s2, ⟨true, n⟩ :: tr ++ [⟨false, n2⟩]⟩
+
+theorem bodyMethod_of_kind_eq (T : Table) (m : String) (n n1 : Node) (h : n1.kind = n.kind) : bodyMethod T m n n1 = .ok m := by
+  simp [bodyMethod, h]
 
 /-- `ASTVisitor.visit(node)` -/
 def visit (T : Table) (v : Visitor σ) (fuel : Nat) (n : Node) (s : σ) : Res (Out σ) :=
